@@ -86,6 +86,7 @@ package formatter
 //@ func FormatDocumentWithOptions
 //@   props C04 C05 C06
 //@   requires journal != nil && len(content) < 4294967295 && JournalLinesOK(journal)
+//@   requires [C04:journal_of_content] parsedFrom(journal) == content
 //@   ensures [C04:nonposting_only_trimmed] forall e int :: 0 <= e && e < len(result) ==> postingLines[result[e].Range.Start.Line] || result[e].NewText == ""
 //@   ensures [C05:single_line] forall e int :: 0 <= e && e < len(result) ==> result[e].Range.Start.Line == result[e].Range.End.Line
 //@   loop 1 invariant 0 - 1 <= rangeindex && rangeindex <= len(journal.Transactions) - 1 && MapOK(mapper, content) && postingLines != nil && fresh(postingLines) && opts.IndentSize > 0
